@@ -11,3 +11,5 @@ func TestC11(t *testing.T) { harness.Main(t, "C11", C11Workloads()) }
 func TestC10(t *testing.T) { harness.Main(t, "C10", C10Workloads()) }
 
 func TestC03(t *testing.T) { harness.Main(t, "C03", C03Workloads()) }
+
+func TestC01(t *testing.T) { harness.Main(t, "C01", C01Workloads()) }
